@@ -8,7 +8,7 @@ from .base import Driver
 from . import products as P
 
 PROP = "C06"
-MODES = ("intact", "nocursor", "badcursor")
+MODES = ("intact", "nocursor", "badcursor", "dropconn")
 # schedules tried after the restart (intact mode): fair round robin, and sync loop first (events taken in late)
 RESTART_ORDERS = (("IL", "IR", "S"), ("S", "S", "IL", "IR"))
 
@@ -121,7 +121,7 @@ def run_job(job):
                     j = P.judge(w)
                     if j["busy"] and not base.get("busy"):
                         bad = ("busy", {"pending": j["busy"]})
-                    elif mode == "intact":
+                    elif mode in ("intact", "dropconn"):
                         if not j["converged"]:
                             bad = ("diverge", j["trees"])
                         elif j["lost"]:
